@@ -2,21 +2,39 @@
 C06 — proof bytes are independent of threading and build features.
 
 The runtime (rayon's scheduler, the `find_any` nonce search, data races through `unsafe` aliasing)
-cannot be exhibited by a Lean model.  What IS logic is the work-splitting bookkeeping, proved for
-every length and every thread count in the properties that own the code:
-  * C14 `chunk_plan_partitions` / `batch_iter_thread_independent`: `batch_iter_mut!` splits a slice
-    into consecutive chunks that partition it, and any closure that writes "its window of a fixed
-    vector" yields that vector for every thread count;
-  * C12: the FFT index schedule; C18: the Merkle subtree schedule (see those files).
-This file states the protocol-level consequence for the one schedule-dependent value, the
-proof-of-work nonce, on the transcript model: everything absorbed before the nonce is used is
-independent of it, so context, commitments and out-of-domain frame cannot depend on which valid
-nonce a parallel search returns.  Byte equality across builds/thread counts is exercised by the
-cross-build stream `c06` (serial build vs `concurrent` build under RAYON_NUM_THREADS ∈ {1,2,16}).
+cannot be exhibited by a Lean model.  What IS logic is the work-splitting bookkeeping.  It is
+proved here for EVERY length, thread count and parameter the code admits, on the model
+`Wf/Model/ParBook.lean` (tied to the real `batch_iter_mut!` inside rayon pools of explicit sizes and
+to the real `DefaultConstraintEvaluator::evaluate` observed through a probing `TraceLde`/`Air` by
+the stream `c06b`):
+  §1  the proof-of-work nonce (the one value a parallel search may legitimately change) only enters
+      the last two transcript events;
+  §2  `batch_iter_mut!` (both arms): the batches partition `0..len`, offsets `i·batch_size`; a closure
+      that only uses `batch_offset + i` is insensitive to the plan (even to an un-rounded one);
+  §3  `acc_column` looks the divisor inverse up with the batch-LOCAL index `z[i % z.len()]`: for a
+      power-of-two slice and a power-of-two table not longer than the minimum batch size, the
+      rounding `threads.next_power_of_two()` makes every batch offset a multiple of `z.len()`, so the
+      parallel result is the serial one; WITHOUT the rounding it is not (counterexamples);
+  §4  `ConstraintEvaluationTable::fragments` / `evaluate`: the fragments partition the table,
+      `fragment.offset() + i` enumerates the global steps in order, so trace-frame, domain-point
+      and periodic-table lookups do not depend on the number of fragments; the fragment-LOCAL
+      index agrees iff the fragment length is a multiple of the table length (counterexample);
+  §5  thread-independence results of the properties that own the code, restated (C14 batch
+      inversion / power series / offset-homomorphic closures, C29 trace-table fragments in any
+      order).  C12 (FFT), C18 (Merkle), C28 (LDE) model the serial code only: their concurrent
+      paths are compared by their own cross-build streams, there is no theorem to restate.
+Byte equality of whole proofs across builds/thread counts is exercised by the cross-build stream
+`c06` (serial build vs `concurrent` build under RAYON_NUM_THREADS ∈ {2,3,5,16}, thorough also
+{1,6,7,12}).
 -/
 import Wf.Props.C03
+import Wf.Props.C14
+import Wf.Props.C29
+import Wf.Lemmas.ParBook
 namespace Wf.Props.C06
-open Wf.Transcript
+open Wf.Transcript Wf.ParBook
+
+/-! ## §1 the nonce -/
 
 /-- the nonce enters the transcript only in the last two events (proof-of-work check, position
     draw): the prefix — all commitments and all challenges derived from them — is the same list
@@ -26,18 +44,411 @@ theorem nonce_only_affects_position_draw (aux : Bool) (lde b f rd q : Nat) :
       .checkPow ∉ pre ∧ ∀ n d, .drawPositions n d ∉ pre := by
   refine ⟨_, rfl, ?_, ?_⟩
   · intro h
-    simp only [List.mem_append, List.mem_cons, List.mem_singleton, List.not_mem_nil, or_false] at h
+    simp only [List.mem_append, List.mem_cons, List.not_mem_nil, or_false] at h
     rcases h with ((h | h) | h) | h
     · cases h
     · cases aux <;> simp at h
     · simp at h
     · rcases Wf.Props.C03.friEvents_mem _ _ _ h with h' | ⟨j, _, _, h'⟩ <;> cases h'
   · intro n d h
-    simp only [List.mem_append, List.mem_cons, List.mem_singleton, List.not_mem_nil, or_false] at h
+    simp only [List.mem_append, List.mem_cons, List.not_mem_nil, or_false] at h
     rcases h with ((h | h) | h) | h
     · cases h
     · cases aux <;> simp at h
     · simp at h
     · rcases Wf.Props.C03.friEvents_mem _ _ _ h with h' | ⟨j, _, _, h'⟩ <;> cases h'
+
+/-! ## §2 `batch_iter_mut!` -/
+
+/-- Three-argument arm, `concurrent` build: for EVERY length, thread count and minimum batch size
+≥ 1 the macro does not panic; batch `k` is `(k·B, min B (len − k·B))` for one width `B`; walking
+the batches in order and adding the local index to the batch offset enumerates `0, 1, .., len−1`;
+every index of the slice is handed out in exactly one batch. -/
+theorem batch_iter_mut_partitions (len threads minBatch : Nat) (hmin : 0 < minBatch) :
+    ∃ cs B, batchIterMut3 len threads minBatch = some cs ∧
+      (∀ k (h : k < cs.length), cs[k] = (k * B, min B (len - k * B))) ∧
+      runGlobal id cs = List.range len ∧
+      (∀ g, g < len → ∃ k, k < cs.length ∧ ∀ j (h : j < cs.length), InBatch cs[j] g ↔ j = k) := by
+  obtain ⟨B, n, hp, hcov, _⟩ := planWith_pieces (batchSize len threads) len minBatch hmin
+  refine ⟨pieces B len n, B, hp, fun k h => pieces_getElem B len n k h, ?_, ?_⟩
+  · rw [runGlobal_pieces_cover _ _ _ _ hcov, List.map_id]
+  · intro g hg
+    obtain ⟨h1, h2⟩ := pieces_unique B len n g hcov hg
+    refine ⟨g / B, by simpa using h1, fun j h => ?_⟩
+    rw [pieces_getElem]
+    exact h2 j (by simpa using h)
+
+/-- Two-argument arm (`batch_size < 1` test): the same, no side condition at all. -/
+theorem batch_iter_mut2_partitions (len threads : Nat) :
+    ∃ cs B, batchIterMut2 len threads = some cs ∧
+      (∀ k (h : k < cs.length), cs[k] = (k * B, min B (len - k * B))) ∧
+      runGlobal id cs = List.range len ∧
+      (∀ g, g < len → ∃ k, k < cs.length ∧ ∀ j (h : j < cs.length), InBatch cs[j] g ↔ j = k) :=
+  batch_iter_mut_partitions len threads 1 (by decide)
+
+/-- The serial build is the one-thread plan (one batch at offset 0), for every minimum batch size ≥ 1. -/
+theorem serial_plan_is_one_thread_plan (len minBatch : Nat) (hmin : 0 < minBatch) :
+    batchPlan false len 1 minBatch = batchPlan true len 1 minBatch := by
+  show some [(0, len)] = planWith (len / Nat.nextPowerOfTwo 1) len minBatch
+  have h1 : Nat.nextPowerOfTwo 1 = 1 := by decide +kernel
+  rw [h1, Nat.div_one]
+  by_cases h : len < minBatch
+  · rw [planWith_small h, ← single_eq_pieces]
+  · have hl : len ≠ 0 := by omega
+    rw [planWith_big h hl]
+    have : (len + len - 1) / len = 1 := by
+      apply Nat.div_eq_of_lt_le <;> omega
+    rw [this, ← single_eq_pieces]
+
+/-- A closure that addresses its data with `batch_offset + i` only (`get_inv_evaluation`,
+`fill_power_series`, the column and the domain point in `acc_column`) writes the same slice under
+every thread count. -/
+theorem global_index_closure_thread_independent {α : Type} (f : Nat → α) (len threads minBatch : Nat)
+    (hmin : 0 < minBatch) :
+    ∃ cs, batchIterMut3 len threads minBatch = some cs ∧ runGlobal f cs = (List.range len).map f := by
+  obtain ⟨B, n, hp, hcov, _⟩ := planWith_pieces (batchSize len threads) len minBatch hmin
+  exact ⟨_, hp, runGlobal_pieces_cover f B len n hcov⟩
+
+/-- … and would do so even if the batch size were computed WITHOUT the power-of-two rounding (the
+first seeded defect is invisible to these callers). -/
+theorem global_index_closure_insensitive_to_rounding {α : Type} (f : Nat → α)
+    (len threads minBatch : Nat) (hmin : 0 < minBatch) (ht : threads ≠ 0) :
+    ∃ cs, planNoRounding len threads minBatch = some cs ∧ runGlobal f cs = (List.range len).map f := by
+  obtain ⟨B, n, hp, hcov, _⟩ := planWith_pieces (len / threads) len minBatch hmin
+  refine ⟨_, ?_, runGlobal_pieces_cover f B len n hcov⟩
+  unfold planNoRounding
+  rw [if_neg ht, hp]
+
+/-- `get_inv_evaluation`: the constraint-evaluation-domain indexes read for the `ce/a` divisor
+evaluations are `g·a mod ce`, `g = 0, 1, ..`, for every thread count. -/
+theorem inv_evaluation_thread_independent (ceSize a threads : Nat) (ha : a ≠ 0) :
+    invEvaluation ceSize a threads
+      = some ((List.range (ceSize / a)).map (fun g => ceXPowerIndex ceSize g a)) := by
+  obtain ⟨cs, h1, h2⟩ := global_index_closure_thread_independent
+    (fun g => ceXPowerIndex ceSize g a) (ceSize / a) threads 128 (by decide)
+  unfold invEvaluation
+  rw [if_neg ha, h1]
+  exact congrArg some h2
+
+/-! ## §3 `acc_column`: batch-local index into the divisor-inverse table -/
+
+/-- KEY identity.  Slice length `2^L` (the constraint evaluation domain), table length `2^j` not
+above the minimum batch size: in every batch of the rounded plan, for every local index `i`,
+`(batch_offset + i) % z.len() = i % z.len()` — every thread count, every `L`. -/
+theorem batch_local_index_eq_global_mod (L j threads minBatch : Nat) (hz : 2 ^ j ≤ minBatch)
+    (cs : List (Nat × Nat)) (h : batchIterMut3 (2 ^ L) threads minBatch = some cs) :
+    ∀ b ∈ cs, ∀ i, (b.1 + i) % 2 ^ j = i % 2 ^ j :=
+  fun b hb i => add_mod_of_dvd (offsets_divisible L threads minBatch j hz cs h b hb) i
+
+/-- `acc_column` (transition branch, `batch_iter_mut!(result, 128, ..)`) on a slice of `2^L` elements
+with a divisor-inverse table of `2^j ≤ 128` entries: under EVERY thread count the concurrent build
+computes `term g (g % 2^j)` at every position `g` — which is what the serial build computes. -/
+theorem acc_column_thread_independent {α : Type} (term : Nat → Nat → α) (L j threads : Nat)
+    (hj : j ≤ 7) :
+    accColumnPar term (2 ^ j) (2 ^ L) threads
+        = some ((List.range (2 ^ L)).map (fun g => term g (g % 2 ^ j))) ∧
+    accColumnSerial term (2 ^ j) (2 ^ L)
+        = some ((List.range (2 ^ L)).map (fun g => term g (g % 2 ^ j))) := by
+  have hz : 2 ^ j ≠ 0 := by have := Nat.two_pow_pos j; omega
+  have h128 : 2 ^ j ≤ 128 := by
+    have : 2 ^ j ≤ 2 ^ 7 := Nat.pow_le_pow_right (by decide) hj
+    simpa using this
+  constructor
+  · obtain ⟨B, n, hp, hcov, _⟩ := planWith_pieces (batchSize (2 ^ L) threads) (2 ^ L) 128 (by decide)
+    unfold accColumnPar
+    have hp' : batchIterMut3 (2 ^ L) threads 128 = some (pieces B (2 ^ L) n) := hp
+    rw [hp']
+    show accColumn term (2 ^ j) (pieces B (2 ^ L) n) = _
+    rw [accColumn_of_divisible term _ hz _ (offsets_divisible L threads 128 j h128 _ hp'),
+      runGlobal_pieces_cover _ _ _ _ hcov]
+  · unfold accColumnSerial batchIterSerial
+    rw [single_eq_pieces, accColumn_of_divisible term _ hz _ (by
+      intro b hb
+      obtain ⟨i, hi, rfl⟩ := mem_pieces hb
+      have : i = 0 := by omega
+      subst this; simp),
+      runGlobal_pieces_cover _ _ _ _ (by omega)]
+
+/-- The instance the prover creates (`combine()` → `acc_column` with the transition divisor
+`(x^n − 1)/e(x)`): trace length `n = 2^a`, constraint-evaluation blowup `2^b` with `b ≤ 7`
+(`ce_blowup ≤ blowup_factor ≤ 128 = MAX_BLOWUP_FACTOR`, both asserted by `AirContext::new` /
+`ProofOptions::new`), `result.len() = n·2^b`, `z.len() = ce_domain_size / n` (`get_inv_evaluation`):
+the concurrent build under any thread count equals the serial build. -/
+theorem acc_column_prover_instance {α : Type} (term : Nat → Nat → α) (a b threads : Nat) (hb : b ≤ 7) :
+    accColumnPar term (2 ^ a * 2 ^ b / 2 ^ a) (2 ^ a * 2 ^ b) threads
+      = accColumnSerial term (2 ^ a * 2 ^ b / 2 ^ a) (2 ^ a * 2 ^ b) := by
+  rw [Nat.mul_div_cancel_left _ (Nat.two_pow_pos a), ← Nat.pow_add]
+  obtain ⟨h1, h2⟩ := acc_column_thread_independent term (a + b) b threads hb
+  rw [h1, h2]
+
+/-- WHY the rounding matters (first seeded defect): with `batch_size = len / threads` the identity
+fails already for `len = 2^10`, three threads, `z.len() = 2`, minimum batch size 128 … -/
+theorem unrounded_batch_offsets_break_local_index :
+    ∃ cs, planNoRounding (2 ^ 10) 3 128 = some cs ∧
+      ∃ b ∈ cs, ∃ i, i < b.2 ∧ (b.1 + i) % 2 ^ 1 ≠ i % 2 ^ 1 :=
+  ⟨[(0, 341), (341, 341), (682, 341), (1023, 1)], by decide, (341, 341), by decide, 0, by decide, by decide⟩
+
+/-- … and then `acc_column` differs from the serial result (slice of 16, table of 4 = minimum batch
+size, three threads; `term` = the pair of indexes used), whereas the rounded plan agrees. -/
+theorem unrounded_acc_column_differs :
+    (planNoRounding 16 3 4).bind (accColumn Prod.mk 4) ≠ accColumnSerial Prod.mk 4 16 ∧
+    (batchIterMut3 16 3 4).bind (accColumn Prod.mk 4) = accColumnSerial Prod.mk 4 16 := by
+  decide +kernel
+
+/-! ## §4 fragments of the constraint evaluation table -/
+
+/-- `fragments(num_fragments)` returns (does not hit the division, the assertion or the index
+panic) exactly when the fragment count is non-zero, divides the number of rows, and leaves at
+least `MIN_FRAGMENT_SIZE = 16` rows per fragment. -/
+theorem fragments_succeeds_iff (numRows numFrags : Nat) :
+    (fragments numRows numFrags).isSome ↔ numFrags ≠ 0 ∧ 16 ≤ numRows / numFrags ∧ numFrags ∣ numRows :=
+  fragments_isSome_iff numRows numFrags
+
+/-- The fragments partition the table exactly: `num_fragments` of them, fragment `k` is
+`(offset, rows) = (k·size, size)` with `size = num_rows / num_fragments`, offsets + local indexes
+enumerate `0 .. num_rows−1` in order, every row is in exactly one fragment. -/
+theorem fragments_partition (numRows numFrags : Nat) (fs : List (Nat × Nat))
+    (h : fragments numRows numFrags = some fs) :
+    fs.length = numFrags ∧
+    (∀ k (hk : k < fs.length), fs[k] = (k * (numRows / numFrags), numRows / numFrags)) ∧
+    runGlobal id fs = List.range numRows ∧
+    (∀ g, g < numRows → ∃ k, k < fs.length ∧ ∀ j (hj : j < fs.length), InBatch fs[j] g ↔ j = k) := by
+  obtain ⟨_, _, h2, rfl⟩ := fragments_eq_some h
+  have hcov : numRows ≤ numFrags * (numRows / numFrags) := by omega
+  refine ⟨by simp, ?_, ?_, ?_⟩
+  · intro k hk
+    rw [pieces_getElem, fragment_full h2 (by simpa using hk)]
+  · rw [runGlobal_pieces_cover _ _ _ _ hcov, List.map_id]
+  · intro g hg
+    obtain ⟨h1, h2'⟩ := pieces_unique _ numRows numFrags g hcov hg
+    refine ⟨g / (numRows / numFrags), by simpa using h1, fun j hj => ?_⟩
+    rw [pieces_getElem]
+    exact h2' j (by simpa using hj)
+
+/-- `step = i + fragment.offset()` enumerates the global steps in order: whatever is computed per
+row from the global step (`row`), the assembled table is `[row 0, row 1, .., row (num_rows−1)]`. -/
+theorem fragment_steps_enumerate_globally {α : Type} (row : Nat → α) (numRows numFrags : Nat)
+    (fs : List (Nat × Nat)) (h : fragments numRows numFrags = some fs) :
+    evalFragments row fs = (List.range numRows).map row :=
+  evalFragments_of_fragments row h
+
+/-- … hence the table does not depend on the number of fragments. -/
+theorem evaluation_independent_of_fragment_count {α : Type} (row : Nat → α) (numRows n₁ n₂ : Nat)
+    (fs₁ fs₂ : List (Nat × Nat)) (h₁ : fragments numRows n₁ = some fs₁)
+    (h₂ : fragments numRows n₂ = some fs₂) : evalFragments row fs₁ = evalFragments row fs₂ := by
+  rw [evalFragments_of_fragments row h₁, evalFragments_of_fragments row h₂]
+
+/-- The periodic lookup `get_row(step)` with the GLOBAL step: the sequence of table rows read is
+`[(g % table_len)·width + j]` for `g = 0 .. num_rows−1`, for every fragment count. -/
+theorem periodic_lookup_independent_of_fragments (tableLen width numRows numFrags : Nat)
+    (fs : List (Nat × Nat)) (h : fragments numRows numFrags = some fs) :
+    evalFragments (periodicRow tableLen width) fs
+      = (List.range numRows).map (periodicRow tableLen width) :=
+  evalFragments_of_fragments _ h
+
+/-- `evaluate`, concurrent build, constraint evaluation domain `2^k ≥ 8192`: the fragment split
+panics (assertion `fragment size must be at least 16`) exactly when
+`16 · threads.next_power_of_two() > 2^k` — more than 512 threads on the smallest such domain. -/
+theorem evaluate_fragments_panics_iff (k threads : Nat) (hk : 13 ≤ k) :
+    evaluateFragments true (2 ^ k) threads = none ↔ 2 ^ k < 16 * Nat.nextPowerOfTwo threads := by
+  have h8192 : minConcurrentDomainSize ≤ 2 ^ k := by
+    have : 2 ^ 13 ≤ 2 ^ k := Nat.pow_le_pow_right (by decide) hk
+    simpa [minConcurrentDomainSize] using this
+  obtain ⟨t, ht⟩ := Nat.isPowerOfTwo_nextPowerOfTwo threads
+  have hnf : numFragments true (2 ^ k) threads = 2 ^ t := by
+    unfold numFragments; simp [h8192, ht]
+  unfold evaluateFragments
+  rw [hnf, ht]
+  have hpos := Nat.two_pow_pos t
+  have hiff := fragments_isSome_iff (2 ^ k) (2 ^ t)
+  constructor
+  · intro hnone
+    by_contra hle
+    have hle' : 16 * 2 ^ t ≤ 2 ^ k := by omega
+    have htk : t ≤ k := by
+      apply (Nat.pow_le_pow_iff_right (show 1 < 2 by decide)).mp
+      omega
+    have : (fragments (2 ^ k) (2 ^ t)).isSome := by
+      rw [hiff]
+      exact ⟨by omega, (Nat.le_div_iff_mul_le hpos).mpr hle', Nat.pow_dvd_pow 2 htk⟩
+    rw [hnone] at this
+    cases this
+  · intro hlt
+    cases hf : fragments (2 ^ k) (2 ^ t) with
+    | none => rfl
+    | some fs =>
+      have : (fragments (2 ^ k) (2 ^ t)).isSome := by rw [hf]; rfl
+      rw [hiff] at this
+      obtain ⟨_, h16, _⟩ := this
+      rw [show minFragmentSize = 16 from rfl, Nat.le_div_iff_mul_le hpos] at h16
+      omega
+
+/-- `evaluate` is thread- and build-independent on the index level: for a constraint evaluation
+domain of `2^k ≥ 16` points (trace length ≥ 8 times ce blowup ≥ 2) and a thread count for which
+the split does not panic (`16·threads.next_power_of_two() ≤ 2^k`, or a domain below the 8192
+threshold), the rows written by the concurrent build — LDE row read, domain point, periodic row
+at every position — are those of the serial build: `rowIdx` of the global step `0, 1, ..`. -/
+theorem evaluate_rows_thread_independent (k threads ldeShift tableLen width : Nat) (hk : 4 ≤ k)
+    (hthr : 16 * Nat.nextPowerOfTwo threads ≤ 2 ^ k ∨ 2 ^ k < 8192) :
+    evaluateRows true (2 ^ k) threads ldeShift tableLen width
+        = some ((List.range (2 ^ k)).map (rowIdx ldeShift tableLen width)) ∧
+    evaluateRows false (2 ^ k) threads ldeShift tableLen width
+        = some ((List.range (2 ^ k)).map (rowIdx ldeShift tableLen width)) := by
+  have h16 : 16 ≤ 2 ^ k := by
+    have : 2 ^ 4 ≤ 2 ^ k := Nat.pow_le_pow_right (by decide) hk
+    simpa using this
+  have key : ∀ nf, nf ≠ 0 → 16 * nf ≤ 2 ^ k → nf ∣ 2 ^ k →
+      (fragments (2 ^ k) nf).map (evalFragments (rowIdx ldeShift tableLen width))
+        = some ((List.range (2 ^ k)).map (rowIdx ldeShift tableLen width)) := by
+    intro nf h0 hle hdvd
+    have hs : (fragments (2 ^ k) nf).isSome := by
+      rw [fragments_isSome_iff]
+      exact ⟨h0, (Nat.le_div_iff_mul_le (by omega)).mpr hle, hdvd⟩
+    obtain ⟨fs, hfs⟩ := Option.isSome_iff_exists.mp hs
+    rw [hfs, Option.map_some, evalFragments_of_fragments _ hfs]
+  have hone := key 1 (by decide) (by omega) (Nat.one_dvd _)
+  constructor
+  · unfold evaluateRows evaluateFragments numFragments
+    by_cases hc : minConcurrentDomainSize ≤ 2 ^ k
+    · simp only [Bool.true_and, decide_eq_true hc, if_true]
+      rcases hthr with hthr | hthr
+      · obtain ⟨t, ht⟩ := Nat.isPowerOfTwo_nextPowerOfTwo threads
+        rw [ht] at hthr ⊢
+        have hpos := Nat.two_pow_pos t
+        refine key _ (by omega) hthr (Nat.pow_dvd_pow 2 ?_)
+        apply (Nat.pow_le_pow_iff_right (show 1 < 2 by decide)).mp
+        omega
+      · unfold minConcurrentDomainSize at hc; omega
+    · simp only [Bool.true_and, decide_eq_false hc]
+      exact hone
+  · unfold evaluateRows evaluateFragments numFragments
+    simp only [Bool.false_and]
+    exact hone
+
+/-- When does the fragment-LOCAL row index give the same periodic lookup as the global step
+(second seeded defect)?  Exactly when there is one fragment or the fragment length is a multiple
+of the periodic table length. -/
+theorem local_step_agrees_iff (numRows numFrags tableLen : Nat) (fs : List (Nat × Nat))
+    (h : fragments numRows numFrags = some fs) :
+    (∀ f ∈ fs, ∀ i, (i + f.1) % tableLen = i % tableLen)
+      ↔ numFrags = 1 ∨ tableLen ∣ numRows / numFrags := by
+  obtain ⟨h0, _, h2, rfl⟩ := fragments_eq_some h
+  constructor
+  · intro hall
+    by_cases h1 : numFrags = 1
+    · exact Or.inl h1
+    · right
+      have hmem : (1 * (numRows / numFrags), min (numRows / numFrags) (numRows - 1 * (numRows / numFrags)))
+          ∈ pieces (numRows / numFrags) numRows numFrags := by
+        unfold pieces
+        exact List.mem_map.mpr ⟨1, List.mem_range.mpr (by omega), rfl⟩
+      have := hall _ hmem 0
+      simp only [Nat.one_mul, Nat.zero_add, Nat.zero_mod] at this
+      exact Nat.dvd_of_mod_eq_zero this
+  · intro hor f hf i
+    obtain ⟨j, hj, rfl⟩ := mem_pieces hf
+    rcases hor with h1 | hd
+    · have : j = 0 := by omega
+      subst this; simp
+    · rw [Nat.add_comm]
+      exact add_mod_of_dvd (Nat.dvd_trans hd (Nat.dvd_mul_left _ _)) i
+
+/-- Counterexample shape of the second seeded defect: domain of 8192 points in two fragments, a
+periodic table as long as the domain (cycle = trace length): the first row of the second fragment
+reads table row 4096 with the global step, row 0 with the local index. -/
+theorem local_step_breaks_periodic_lookup :
+    ∃ fs, fragments 8192 2 = some fs ∧
+      ∃ f ∈ fs, ∃ i, i < f.2 ∧ periodicRow 8192 1 (i + f.1) ≠ periodicRow 8192 1 i :=
+  ⟨[(0, 4096), (4096, 4096)], by decide, (4096, 4096), by decide, 0, by decide, by decide⟩
+
+/-- … and on a whole (small) table: 64 rows, two fragments, table length 64. -/
+theorem local_step_table_differs :
+    (fragments 64 2).map (evalFragmentsLocal (periodicRow 64 1))
+      ≠ (fragments 64 2).map (evalFragments (periodicRow 64 1)) ∧
+    (fragments 64 2).map (evalFragments (periodicRow 64 1))
+      = (fragments 64 1).map (evalFragments (periodicRow 64 1)) := by
+  decide
+
+/-! ## §5 thread independence proved by the properties that own the code (restated, not re-proved) -/
+
+section restated
+open Wf Wf.BatchUtils
+
+/-- C14: a closure that writes "its window of a fixed vector" yields that vector for every thread
+count and minimum batch size (`batch_iter_mut!`; `batchIterMut3` IS C14's `chunkPlan`). -/
+theorem c14_batch_iter_thread_independent {F : Type} (threads minBatch : Nat) (hmin : 0 < minBatch)
+    (whole : List F) (c : Nat → Nat → Option (List F))
+    (hc : ∀ off len, 0 < len ∨ whole = [] → off + len ≤ whole.length →
+      c off len = some ((whole.drop off).take len)) :
+    ∃ cs, batchIterMut3 whole.length threads minBatch = some cs ∧ batchApply cs c = some whole :=
+  Wf.Props.C14.batch_iter_thread_independent threads minBatch hmin whole c hc
+
+/-- C14: `batch_inversion` (used by `get_inv_evaluation` for the divisor inverses `z`) returns the
+element-wise inverses for every thread count. -/
+theorem c14_batch_inversion_thread_independent {K : Type} [Field K] [DecidableEq K] (inv : K → K)
+    (hinv : ∀ x : K, x ≠ 0 → x * inv x = 1) (threads : Nat) (vs : List K) :
+    batchInversion (ringOps K inv) threads vs = some (vs.map (fun v => v⁻¹)) :=
+  Wf.Props.C14.batch_inversion_elementwise inv hinv threads vs
+
+/-- C14: `get_power_series` (the constraint evaluation domain `ce_domain` of `StarkDomain::new`) is
+`[bⁱ]` for every thread count. -/
+theorem c14_power_series_thread_independent {R : Type} [CommRing R] [DecidableEq R] (inv : R → R)
+    (exp : R → Nat → R) (hexp : ∀ x k, exp x k = x ^ k) (threads : Nat) (b : R) (n : Nat) :
+    getPowerSeries (ringOps R inv) exp threads b n = some ((List.range n).map (fun i => b ^ i)) :=
+  Wf.Props.C14.get_power_series_powers inv exp hexp threads b n
+
+end restated
+
+section restated29
+open Wf.TraceTable
+
+/-- C29: trace-table fragments processed in ANY order covering all of them (any schedule of the
+parallel iterator) give the table built by the serial `fill`. -/
+theorem c29_trace_fragments_schedule_independent (upd : Nat → List Nat → List Nat) (w len m : Nat)
+    (hupd : ∀ j s, s.length = w → (upd j s).length = w)
+    (t t' : Table) (ht : Shape t w (m * len)) (ht' : Shape t' w (m * len))
+    (init : List Nat) (hi : init.length = w) (hlen : 1 ≤ len) (hm : 1 ≤ m)
+    (is : List Nat) (hcover : ∀ i, i < m → i ∈ is) (hrange : ∀ i ∈ is, i < m) :
+    fillFragList upd (fun i => iterAt upd (i * len) 0 init) len is t' = fill t (m * len) init upd :=
+  Wf.Props.C29.fragments_eq_fill upd w len m hupd t t' ht ht' init hi hlen hm is hcover hrange
+
+end restated29
+
+/-! ## non-vacuity -/
+
+-- §2: real constants, non-power-of-two thread counts, a short last batch, the one-batch case
+example : batchIterMut3 8192 3 128 = some [(0, 2048), (2048, 2048), (4096, 2048), (6144, 2048)] := by
+  decide +kernel
+example : batchIterMut3 1000 3 128 = some [(0, 250), (250, 250), (500, 250), (750, 250)] := by decide +kernel
+example : batchIterMut3 1001 5 100 = some [(0, 125), (125, 125), (250, 125), (375, 125), (500, 125),
+    (625, 125), (750, 125), (875, 125), (1000, 1)] := by decide +kernel
+example : batchIterMut3 1000 16 128 = some [(0, 1000)] := by decide +kernel
+example : batchIterMut2 5 2 = some [(0, 2), (2, 2), (4, 1)] := by decide +kernel
+example : batchIterMut2 3 8 = some [(0, 3)] := by decide +kernel
+example : InBatch (250, 250) 499 ∧ ¬ InBatch (250, 250) 500 := by decide
+example : runGlobal id [(0, 2), (2, 2), (4, 1)] = List.range 5 := by decide
+example : invEvaluation 16 4 3 = some [0, 4, 8, 12] := by decide +kernel
+-- §3: the hypotheses are satisfiable with several batches (ce domain 2^13, ce blowup 2^3, 5 threads → 8 batches)
+example : (batchIterMut3 (2 ^ 13) 5 128).map List.length = some 8 := by decide +kernel
+example : accColumnPar Prod.mk (2 ^ 1) (2 ^ 3) 4 = accColumnSerial Prod.mk (2 ^ 1) (2 ^ 3) :=
+  ((acc_column_thread_independent Prod.mk 3 1 4 (by decide)).1).trans
+    ((acc_column_thread_independent Prod.mk 3 1 4 (by decide)).2).symm
+example : accColumnSerial Prod.mk 2 4 = some [(0, 0), (1, 1), (2, 0), (3, 1)] := by decide
+example : accColumn (α := Nat × Nat) Prod.mk 0 [(0, 4)] = none := by decide
+-- §4
+example : fragments 8192 4 = some [(0, 2048), (2048, 2048), (4096, 2048), (6144, 2048)] := by decide +kernel
+example : fragments 8192 1024 = none := by decide +kernel      -- 8 rows per fragment: assertion
+example : fragments 100 3 = none := by decide +kernel          -- 4 chunks for 3 fragments: index panic
+example : fragments 64 0 = none := by decide +kernel           -- division by zero
+example : numFragments true 8192 5 = 8 ∧ numFragments true 4096 5 = 1 ∧ numFragments false 8192 5 = 1 := by
+  decide +kernel
+example : evaluateFragments true 8192 600 = none := by decide +kernel
+example : (evaluateFragments true 8192 5).map List.length = some 8 := by decide +kernel
+example : periodicRow 8 2 11 = some [6, 7] ∧ periodicRow 0 0 11 = some [] ∧ periodicRow 0 1 11 = none := by
+  decide
+example : (evaluateRows true 16 3 1 4 1).map (·.map (·.ldeStep)) = some ((List.range 16).map (· * 2)) := by
+  decide +kernel
+example : evalFragments id [(0, 2), (2, 2)] = [0, 1, 2, 3] ∧ evalFragmentsLocal id [(0, 2), (2, 2)] = [0, 1, 0, 1] := by
+  decide
 
 end Wf.Props.C06
